@@ -26,9 +26,11 @@ Definition queue_empty (q:sring) : Prop := q_rd q = q_wr q.
 Definition claim_pending (n:node) (i:Z) : bool :=
   let t := d_claim_timer (get_dev n i) in sched_is_enabled (n_w64 n) t && negb (sched_is_time (n_w64 n) (n_now n) t).
 
+(* a node that claims its addresses: every mode but ListenOnly, SendOnly, ListenAndSend *)
+Definition claims_addresses (n:node) : bool := negb (n_mode n =? 0) && negb (n_mode n =? 3) && negb (n_mode n =? 4).
 (* the 64-bit scheduler computes now+250 modulo 2^64 and uses 2^64-1 as "disabled": a claim started in the last 251 ms before the
-   clock wraps (after 584 million years) would not open a window.  The statements about claim starts assume a clock below 2^63 ms. *)
-Definition clock_ok (n:node) : Prop := n_w64 n = true -> 0 <= n_now n < 2^63.
+   clock wraps (after 584 million years) would not open a window.  The statements assume, for such nodes, a clock below 2^63 ms. *)
+Definition clock_ok (n:node) : Prop := n_w64 n = true -> claims_addresses n = true -> 0 <= n_now n < 2^63.
 
 (* ================= who may produce a frame =================
    In state n a frame with identifier id may be handed to SendFrame iff the node is open and not listen-only and the identifier
@@ -89,28 +91,31 @@ Definition listen_only_silent_stmt : Prop :=
     (forall b, In (EvResult b) ev -> b = false).
 
 (* ================= 2. not open =================
-   (a) Open() ([open_step]) calls the driver only in the call that completes it: it was in WaitOpen (or reaches it... it cannot: CANOpen
-       and the completion are separate calls) with the settle timer expired and returns with the node open.
-   (b) A step of a node that is not open (send queue empty, as from construction) calls the driver only if the node is open afterwards.
+   (a) Open() ([open_step]) calls the driver only in the call that completes it: the open state was WaitOpen (precisely: none of
+       None, OpenCAN, Open - in every reachable state that is WaitOpen), the 200 ms settle timer armed by the call that opened the CAN
+       interface has expired, and the call returns with the node open.  A call that does not complete leaves queue and driver alone.
+   (b) A step of a node that is not open (send queue empty, as from construction) whose Open() - called by ParseMessages and SendMsg -
+       does not complete in this step calls the driver not at all, queues nothing, returns false from SendMsg and leaves the node not open.
    (c) The settle delay: from a cold node constructed at time t0, no operation list whose clock stays below t0 + 200 (ticks are non
-       negative) makes the node call the driver.  (The 64-bit scheduler compares strictly, so there it is even t0 + 202; the 32-bit
-       scheduler fires at equality: CANOpen at t0, open at t0 + 200.) *)
+       negative) makes the node call the driver.  (The 64-bit scheduler compares strictly, so there the first frame comes at
+       t0 + 202 at the earliest; the 32-bit scheduler fires at equality: CANOpen at t0, open at t0 + 200.) *)
 Definition open_step_silent_stmt : Prop :=
   forall r r' ev b, open_step r = (r', ev, b) ->
-    (ev = [] \/ (n_open (rn r) <> 3 /\ n_open (rn r') = 3 /\
-                 (n_open (rn r) = 2 \/ (n_open (rn r) <> 0 /\ n_open (rn r) <> 1)) /\
+    (ev = [] \/ (n_open (rn r) <> 0 /\ n_open (rn r) <> 1 /\ n_open (rn r) <> 3 /\ n_open (rn r') = 3 /\
                  sched_is_time (w64 r) (now r) (r_open_sched r) = true)) /\
-    (n_open (rn r') <> 3 -> n_q (rn r') = n_q (rn r) /\ n_drv (rn r') = n_drv (rn r)).
+    (n_open (rn r') <> 3 -> ev = [] /\ n_q (rn r') = n_q (rn r) /\ n_drv (rn r') = n_drv (rn r) /\ n_mode (rn r') = n_mode (rn r)).
+Definition calls_open (o:rop) : bool := match o with RPoll | RBase (OSend _ _) => true | _ => false end.
+Definition open_completes (r:rnode) : bool := n_open (rn (fst (fst (open_step r)))) =? 3.
 Definition not_open_silent_stmt : Prop :=
   forall gf r o r' ev, rstep gf r o = (r', ev) ->
-    n_open (rn r) <> 3 -> queue_empty (n_q (rn r)) ->
-    (n_open (rn r') <> 3 -> no_tx ev /\ n_q (rn r') = n_q (rn r) /\ (forall b, In (EvResult b) ev -> b = false)).
+    n_open (rn r) <> 3 -> queue_empty (n_q (rn r)) -> (calls_open o = true -> open_completes r = false) ->
+    no_tx ev /\ n_q (rn r') = n_q (rn r) /\ n_open (rn r') <> 3 /\ (forall b, In (EvResult b) ev -> b = false).
 
 Definition ticks_nonneg (ops:list rop) : Prop := Forall (fun o => match o with RBase (OTick dt) => 0 <= dt | _ => True end) ops.
 Fixpoint clock_after (t:Z) (ops:list rop) : Z := match ops with [] => t | RBase (OTick dt) :: r => clock_after (t + dt) r | _ :: r => clock_after t r end.
 Definition settle_delay_stmt : Prop :=
-  forall gf w mode t0 qmax nsl pc devs rxls cfg ops,
-    0 <= t0 -> t0 + 200 < 2^32 \/ w = true -> (w = true -> t0 + 200 < 2^64) -> ticks_nonneg ops -> clock_after t0 ops < t0 + 200 ->
+  forall gf (w:bool) mode t0 qmax nsl pc devs rxls cfg ops,
+    0 <= t0 -> t0 + 400 < (if w then 2^64 else 2^32) -> ticks_nonneg ops -> clock_after t0 ops < t0 + 200 ->
     Forall no_tx (snd (rrun gf (cold_node w mode t0 qmax nsl pc devs rxls cfg) ops)).
 
 (* ================= 3. produced frames are entitled (the core) =================
@@ -125,7 +130,8 @@ Definition produced_frames_entitled_stmt : Prop :=
    addresses (modes 1, 2) with a well-formed queue: every driver call concerns a frame that was already queued or one produced in this
    step, every frame queued afterwards likewise, and a produced frame that is not an ISO address claim carries the address that one of
    the devices held at the start of the step (<= 251, so not the null address), that device's claim was not pending at the start of the
-   step, the node is not listen-only and is open when the step ends.  In particular: while a device's claim is pending no frame other
+   step, and the node is not listen-only.  (Stated for a step that starts on an open node; the step that opens the node sends the
+   initial claims and is covered by the machine itself.)  In particular: while a device's claim is pending no frame other
    than address claims is produced from its address by that device. *)
 Definition entitled_at_start (fwd:bool) (n:node) (id:Z) : Prop :=
   exists pri pgn src dst i,
@@ -134,9 +140,9 @@ Definition entitled_at_start (fwd:bool) (n:node) (id:Z) : Prop :=
        claim_pending n i = false /\ src <= 251 /\
        ((0 <= i < dev_count n /\ src = d_src (get_dev n i)) \/ (fwd = true /\ i = 0))).
 Definition run_start_stmt : Prop :=
-  forall fwd n ev p n', Run fwd n ev p n' -> ring_wf (n_q n) -> n_mode n = 1 \/ n_mode n = 2 ->
-    ring_wf (n_q n') /\
-    (forall id, In id p -> entitled_at_start fwd n id /\ n_open n' = 3) /\
+  forall fwd n ev p n', Run fwd n ev p n' -> ring_wf (n_q n) -> n_open n = 3 -> n_mode n = 1 \/ n_mode n = 2 ->
+    ring_wf (n_q n') /\ n_open n' = 3 /\
+    (forall id, In id p -> entitled_at_start fwd n id) /\
     (forall id, In id (tx_ids ev) -> In id (queue_ids (n_q n)) \/ In id p) /\
     (forall id, In id (queue_ids (n_q n')) -> In id (queue_ids (n_q n)) \/ In id p).
 
@@ -148,27 +154,28 @@ Definition run_start_stmt : Prop :=
    initial address claims and belong to statement 2.) *)
 Definition app_send_fails_visibly_stmt : Prop :=
   forall gf r idev m r' ev, rstep gf r (RBase (OSend idev m)) = (r', ev) ->
-    idev < dev_count (rn r) ->
     let i := if idev >=? 0 then idev else 0 in
     let src := if idev >=? 0 then d_src (get_dev (rn r) idev) else m_src m in
     ( (n_open (rn r) = 3 /\ (n_mode (rn r) = 0 \/ (m_pgn m <> 60928 /\ (claim_pending (rn r) i = true \/ 251 < src))))
-      \/ (n_open (rn r) <> 3 /\ n_open (rn r') <> 3 /\ queue_empty (n_q (rn r))) ) ->
+      \/ (n_open (rn r) <> 3 /\ open_completes r = false) ) ->
     ev = [EvResult false] /\ n_q (rn r') = n_q (rn r) /\ n_drv (rn r') = n_drv (rn r).
 
 (* ================= 5. what reaches the driver during a claim window =================
-   Let device i's claim be pending at the start of a step, all other devices hold other addresses, and let the send queue hold no frame
-   with i's address other than address claims (e.g. the queue is empty).  Then every driver call of the step whose identifier encodes
+   Let device i's claim be pending at the start of a step of an open node, let no device that is not claiming hold the same address, and let
+   the send queue hold no frame with i's address other than address claims (e.g. the queue is empty).  Then every driver call of the step whose identifier encodes
    i's address (the one it holds at the start of the step) is an ISO address claim, and the queue still holds no other frame with that
-   address afterwards.  [src_of] / [pgn_of] read an identifier the way the receiver does (CanIdToN2k). *)
+   address afterwards.  [src_of] / [pgn_of] read an identifier the way the receiver does (CanIdToN2k); an address claim is recognised by
+   its identifier being the encoding of PGN 60928 (C02 shows that the receiver's reading of such an identifier is PGN 60928). *)
 Definition src_of (id:Z) : Z := let '(_, _, s, _) := can_id_to_n2k id in s.
 Definition pgn_of (id:Z) : Z := let '(_, p, _, _) := can_id_to_n2k id in p.
-Definition only_claims_from (a:Z) (ids:list Z) : Prop := forall id, In id ids -> src_of id = a -> pgn_of id = 60928.
-Definition addrs_ok (n:node) : Prop := Forall (fun d => 0 <= d_src d < 256) (n_devs n).
+Definition is_claim_id (id:Z) : Prop := exists pri src dst, id = to_can_id pri 60928 src dst.
+Definition only_claims_from (a:Z) (ids:list Z) : Prop := forall id, In id ids -> src_of id = a -> is_claim_id id.
+Definition addrs_ok (n:node) : Prop := forall j, 0 <= d_src (get_dev n j) < 256.
 Definition wire_level_stmt : Prop :=
   forall gf, gf_ok gf -> forall r o r' ev i, rstep gf r o = (r', ev) -> is_env o = false -> is_fwd o = false -> clock_ok (rn r) ->
-    ring_wf (n_q (rn r)) -> n_mode (rn r) = 1 \/ n_mode (rn r) = 2 -> addrs_ok (rn r) ->
+    ring_wf (n_q (rn r)) -> n_open (rn r) = 3 -> n_mode (rn r) = 1 \/ n_mode (rn r) = 2 -> addrs_ok (rn r) ->
     0 <= i < dev_count (rn r) -> claim_pending (rn r) i = true ->
-    (forall j, 0 <= j < dev_count (rn r) -> j <> i -> d_src (get_dev (rn r) j) <> d_src (get_dev (rn r) i)) ->
+    (forall j, 0 <= j < dev_count (rn r) -> claim_pending (rn r) j = false -> d_src (get_dev (rn r) j) <> d_src (get_dev (rn r) i)) ->
     only_claims_from (d_src (get_dev (rn r) i)) (queue_ids (n_q (rn r))) ->
     only_claims_from (d_src (get_dev (rn r) i)) (tx_ids ev) /\
     only_claims_from (d_src (get_dev (rn r) i)) (queue_ids (n_q (rn r'))).
